@@ -24,10 +24,12 @@ Graph(e) ==
 Grad(e) == IF e.raised THEN Chk(FALSE, "gradient_check_raised") ELSE
            /\ Chk(e.relerr_ppm <= 2000, "gradient_matches_finite_differences")
            /\ Chk(e.has_grad, "output_depends_on_input_differentiably")
+Filters(e) == IF e.raised THEN Chk(~e.integral, "filter_count_helper_raised_for_an_integral_case")
+              ELSE Chk(NumFiltersOK(e.c, e.layers, e.rn, e.rd, e.channels, e.cplx), "filter_count_realises_the_bandwidth_ratio")
 Init == l = 1
 Next == /\ l <= Len(TLog)
         /\ LET e == TLog[l] IN
-             CASE e.ev = "Shape" -> Shape(e) [] e.ev = "Graph" -> Graph(e) [] e.ev = "Grad" -> Grad(e) [] OTHER -> Chk(FALSE, "unknown_event")
+             CASE e.ev = "Shape" -> Shape(e) [] e.ev = "Graph" -> Graph(e) [] e.ev = "Grad" -> Grad(e) [] e.ev = "Filters" -> Filters(e) [] OTHER -> Chk(FALSE, "unknown_event")
         /\ l' = l + 1
 Spec == Init /\ [][Next]_l
 AllConsumed == TLCGet("stats").diameter = Len(TLog) + 1
